@@ -18,9 +18,17 @@ Positions == {"param", "result", "attr", "super", "generic"}
 RPlaces == {"root", "pubsub"}
 Targets(tier) == { s \in Pk!Universe("thorough") : s.kind = "class" /\ s.dname = "pubdecl" /\ Pk!PublicTop(s)
                                                 /\ (tier = "thorough" \/ s.reexp.alias # "_privalias") }
+(* a second package, not an ancestor of T's module, that re-exports T by name as well: <<segments below the scenario directory,   *)
+(* does it sort before the first re-exporter?>>.  The declaration goes to the re-exporter with the fewest segments (ties: the one  *)
+(* that sorts first); "frontendpkgx" has fewer segments but a longer spelling than subp/deep, "zz" ties with subp and is shorter.  *)
+NoSecond == [segs |-> <<>>, first |-> FALSE]
+Seconds == { [segs |-> <<"frontendpkgx">>, first |-> TRUE], [segs |-> <<"zz">>, first |-> FALSE], [segs |-> <<"aaaaaa">>, first |-> TRUE],
+             [segs |-> <<"ab", "cd">>, first |-> TRUE] }
 Universe(tier) ==
-  { [t |-> t, rplace |-> rp, pos |-> p, via |-> v, own |-> o] :
+  { [t |-> t, rplace |-> rp, pos |-> p, via |-> v, own |-> o, second |-> NoSecond] :
       t \in Targets(tier), rp \in RPlaces, p \in Positions, v \in {"def", "reexp"}, o \in BOOLEAN }
+  \cup { [t |-> t, rplace |-> "root", pos |-> p, via |-> "def", own |-> FALSE, second |-> s2] :
+      t \in { t \in Targets(tier) : t.reexp.form \in {"none", "name"} /\ t.stem = "pubmod" }, p \in {"param", "super"}, s2 \in Seconds }
 Legal(u) ==
   /\ (u.via = "reexp" => u.t.reexp.form \in {"name", "alias"} /\ ~Pk!PrivateName(Pk!ExposedName(u.t)))
   /\ (u.own => u.pos = "param" /\ u.rplace = "root" /\ u.via = "def")
@@ -28,7 +36,14 @@ Legal(u) ==
 
 (* files of a scenario in the promised design: <<home (package segments), declared names, referenced names, imports>> *)
 ShownName(t) == IF t.reexp.form = "alias" /\ Pk!ChosenHome(t) = Pk!ReexpHome(t) THEN t.reexp.alias ELSE t.dname
-THome(t) == Pk!ChosenHome(t)
+Home1(t) == Pk!ChosenHome(t)
+THome(u) ==
+  LET h1 == Home1(u.t)
+      h2 == u.second.segs
+  IN IF h2 = <<>> THEN h1
+     ELSE IF h1 = Pk!ModuleHome(u.t) \/ Len(h2) < Len(h1) THEN h2        \* a module is left for any re-exporting package
+     ELSE IF Len(h2) > Len(h1) THEN h1
+     ELSE IF u.second.first THEN h2 ELSE h1
 RHome(u) == Pk!PlacePath(u.rplace) \o <<"refmod">>
 
 VARIABLES sc, files, pc
@@ -36,11 +51,11 @@ vars == <<sc, files, pc>>
 Init == sc \in { u \in Universe(Tier) : Legal(u) } /\ files = {} /\ pc = "emit-target"
 EmitTarget ==
   /\ pc = "emit-target"
-  /\ files' = { [home |-> THome(sc.t), decls |-> { ShownName(sc.t) }, refs |-> IF sc.own THEN { ShownName(sc.t) } ELSE {}, imports |-> {}] }
+  /\ files' = { [home |-> THome(sc), decls |-> { ShownName(sc.t) }, refs |-> IF sc.own THEN { ShownName(sc.t) } ELSE {}, imports |-> {}] }
   /\ pc' = "emit-ref" /\ UNCHANGED sc
 EmitRef ==     \* the import names the package where T was finally emitted and the name it has there
   /\ pc = "emit-ref"
-  /\ files' = files \cup { [home |-> RHome(sc), decls |-> { "holder" }, refs |-> { ShownName(sc.t) }, imports |-> { <<THome(sc.t), ShownName(sc.t)>> }] }
+  /\ files' = files \cup { [home |-> RHome(sc), decls |-> { "holder" }, refs |-> { ShownName(sc.t) }, imports |-> { <<THome(sc), ShownName(sc.t)>> }] }
   /\ pc' = "done" /\ UNCHANGED sc
 Next == EmitTarget \/ EmitRef
 Spec == Init /\ [][Next]_vars /\ WF_vars(Next)
@@ -63,12 +78,14 @@ RefSig(r) ==
        \o (IF t.reexp.form \in {"alias", "modalias"} THEN (IF Pk!PrivateName(t.reexp.alias) THEN "-private-alias" ELSE "-public-alias") ELSE "")
        \o ":" \o (IF Pk!ChosenHome(t) = Pk!ModuleHome(t) THEN "stays-in-module" ELSE "moved-to-package")
        \o ":" \o (IF r.sc.own THEN "own-module" ELSE "via-" \o r.sc.via)
+       \o (IF Len(r.sc.second) > 0 THEN ":second-re-exporter" ELSE "")
 ImpSig(i) ==
   IF i.kind # "u3" THEN i.kind
   ELSE LET t == i.sc.t IN
        t.reexp.form \o (IF t.reexp.form \in {"alias", "modalias"} THEN (IF Pk!PrivateName(t.reexp.alias) THEN "-private-alias" ELSE "-public-alias") ELSE "")
        \o ":" \o (IF Pk!ChosenHome(t) = Pk!ModuleHome(t) THEN "stays-in-module" ELSE "moved-to-package")
        \o ":" \o (IF Pk!PrivateName(t.stem) THEN "private-module" ELSE "public-module") \o ":via-" \o i.sc.via
+       \o (IF Len(i.sc.second) > 0 THEN ":second-re-exporter" ELSE "")
 JudgeRun(obs) ==
   LET F == ToSet(obs.files)
       declaredIn(f) == ToSet(f.decls)
